@@ -198,15 +198,52 @@ impl Run {
             }
         };
         let t0 = Instant::now();
-        let out = std::process::Command::new(&bin).args(["check", &self.prop, "quick"]).env("VERIF_SHADOW", "1").env("VERIF_SEED", self.seed.to_string()).output();
-        let out = match out {
-            Ok(o) => o,
+        // a watchdog around the shadow process: without overflow checks a counter can wrap where the
+        // sanitizer profile panics, and a loop that relied on the panic never ends
+        let limit = std::time::Duration::from_secs_f64((self.elapsed() * 4.0).max(150.0));
+        let dir = format!("{}/.work", root());
+        let _ = std::fs::create_dir_all(&dir);
+        let out_path = format!("{}/shadow-{}-{}.out", dir, self.prop, std::process::id());
+        let err_path = format!("{}/shadow-{}-{}.err", dir, self.prop, std::process::id());
+        let spawn = (|| -> std::io::Result<std::process::Child> {
+            std::process::Command::new(&bin)
+                .args(["check", &self.prop, "quick"])
+                .env("VERIF_SHADOW", "1")
+                .env("VERIF_SEED", self.seed.to_string())
+                .stdout(std::fs::File::create(&out_path)?)
+                .stderr(std::fs::File::create(&err_path)?)
+                .spawn()
+        })();
+        let mut child = match spawn {
+            Ok(c) => c,
             Err(e) => {
                 self.set("shadow_run_shipped_profile", json!(format!("could not run: {}", e)));
                 return;
             }
         };
-        let text = String::from_utf8_lossy(&out.stdout);
+        let mut timed_out = false;
+        let status = loop {
+            match child.try_wait() {
+                Ok(Some(st)) => break st.code(),
+                Ok(None) => {
+                    if t0.elapsed() > limit {
+                        timed_out = true;
+                        let _ = child.kill();
+                        let _ = child.wait();
+                        break None;
+                    }
+                    std::thread::sleep(std::time::Duration::from_millis(50));
+                }
+                Err(_) => break None,
+            }
+        };
+        let text = std::fs::read_to_string(&out_path).unwrap_or_default();
+        let err_text = std::fs::read_to_string(&err_path).unwrap_or_default();
+        let _ = std::fs::remove_file(&out_path);
+        let _ = std::fs::remove_file(&err_path);
+        if timed_out {
+            self.acc.inconclusive.push(format!("shadow run on the shipped-profile build did not end within {:.0} s (the run on the sanitizer-profile build took {:.0} s) and was stopped: without overflow checks something loops there", limit.as_secs_f64(), self.elapsed() - t0.elapsed().as_secs_f64()));
+        }
         let mut stats = Value::Null;
         let mut n = 0;
         for l in text.lines() {
@@ -225,10 +262,9 @@ impl Run {
                 stats = serde_json::from_str(j).unwrap_or(Value::Null);
             }
         }
-        if stats.is_null() {
+        if stats.is_null() && !timed_out {
             // the shadow process died (a panic outside catch_unwind, an abort): that is an observation too
-            let err = String::from_utf8_lossy(&out.stderr);
-            self.acc.inconclusive.push(format!("shadow run on the shipped-profile build ended without a summary (status {:?}): {}", out.status.code(), err.lines().rev().take(3).collect::<Vec<_>>().join(" | ")));
+            self.acc.inconclusive.push(format!("shadow run on the shipped-profile build ended without a summary (status {:?}): {}", status, err_text.lines().rev().take(3).collect::<Vec<_>>().join(" | ")));
         }
         self.set("shadow_run_shipped_profile", json!({"what": "the in-process part of this check once more (quick volume) on a build of the harness without debug assertions and with wrapping arithmetic - the semantics of the shipped binary", "summary": stats, "violations_taken_over": n, "seconds": t0.elapsed().as_secs_f64()}));
     }
